@@ -587,15 +587,30 @@ func (x *Run) havocPointee(st *State, a Val) {
 
 // invoke: interface method call.
 func (x *Run) invoke(fr *Frame, st *State, recv Val, cc *ssa.CallCommon, args []Val, site ssa.Instruction) []Outcome {
-	m := cc.Method
-	full := m.FullName()
 	// A-NONNIL: interface receivers are not nil (a call through a nil interface
 	// panics; that panic is not among the obligations generated), so after the
 	// call the path knows it
+	var pre []Outcome
+	if recv.S == SIface && recv.NilIface && !fr.inPure() {
+		// a value a specification declared possibly nil (verif.Nullable: the
+		// connection a sniffing hook hands back together with an error): calling
+		// a method through it is an obligation
+		x.mayPanic(fr, st, not(eq(recv.T, "inil")), "nilcall", site, &pre)
+	}
+	if len(pre) > 0 {
+		outs := x.invoke1(fr, st, recv, cc, args, site)
+		return append(pre, outs...)
+	}
+	return x.invoke1(fr, st, recv, cc, args, site)
+}
+
+func (x *Run) invoke1(fr *Frame, st *State, recv Val, cc *ssa.CallCommon, args []Val, site ssa.Instruction) []Outcome {
+	m := cc.Method
+	full := m.FullName()
+	all := append([]Val{recv}, args...)
 	if recv.S == SIface && recv.T != "inil" && !fr.inPure() {
 		st.assume(not(eq(recv.T, "inil")))
 	}
-	all := append([]Val{recv}, args...)
 	if con := x.spec.contractFor(full); con != nil && con.InlineKnown && recv.Inner != nil && recv.Inner.Ty != nil && !(fr.con == con) {
 		// receiver's dynamic type known: run the implementation (each listed
 		// implementation is verified against the contract separately)
